@@ -27,6 +27,8 @@ CLAIM = (
     "read on the unchanged tree (baselines/skips.json): a new skip means elements that were handled are no longer handled."
     " TRUTHY: in the modules in scope no Optional[int|str|float|bytes] is tested by truthiness (a bound of 0 or an empty pattern is a "
     "constraint, not the absence of one); zero instances on the unchanged tree, kept alive by a positive control."
+    " ARITY: the matchers of the schema inference read `node.values[i]` / `node.args[i]` only after establishing the exact number of "
+    "operands (an ignored extra operand makes the inferred constraint stronger than the invariant)."
 )
 NOTE = (
     "Oracle: base64 text length 4*ceil(n/3). Documented exclusions (by design of the generator, stated in the property): tightenings "
@@ -78,6 +80,12 @@ def run(ctx) -> None:
         if _m.name == "aas_core_codegen.jsonschema.main" or _m.name.startswith("aas_core_codegen.infer_for_schema"):
             for _f in _m.functions.values():
                 _truthy.check_truthy(ctx, _f, "TRUTHY")
+    ctx.rule("ARITY", "matchers of the inference read a fixed number of operands only after establishing exactly that arity", floor=4)
+    from ..rules import arity as _arity
+    for _m in ctx.p.modules.values():
+        if _m.name.startswith("aas_core_codegen.infer_for_schema"):
+            for _f in _m.functions.values():
+                _arity.check_arity(ctx, _f, "ARITY")
 
 
 def _source_guard_ok(guards, attr: str) -> Tuple[bool, str]:
